@@ -90,9 +90,19 @@ Example C03_noncanonical_rejected :
   Decode true SBool [2] = Err EBool.
 Proof. exact noncanonical_rejected. Qed.
 
+Print Assumptions C03_layout_bool.
 Print Assumptions C03_layout_int.
+Print Assumptions C03_layout_u256.
 Print Assumptions C03_layout_time.
+Print Assumptions C03_layout_bytearr.
+Print Assumptions C03_layout_prefix.
+Print Assumptions C03_layout_struct.
+Print Assumptions C03_layout_optional_absent.
+Print Assumptions C03_layout_optional_present.
 Print Assumptions C03_layout_sequence.
 Print Assumptions C03_canonical.
 Print Assumptions C03_canonical_time.
 Print Assumptions C03_injective.
+Print Assumptions C03_refuted_time_saturation.
+Print Assumptions C03_canonical_nonvacuous.
+Print Assumptions C03_noncanonical_rejected.
